@@ -121,14 +121,17 @@ def run_c18(tier):
     plans = [(4, 1, 4, 3, False), (3, 1, 2, 4, True), (5, 2, 8, 3, True), (4, 2, 3, 4, False)]
     count = 120 if tier == 'quick' else 2500
     hists = {}
-    for (n, t, g, ops, chaos) in plans:
-        out = os.path.join(vlib.subdir('results'), 'conc-%d-%d-%d.ndjson' % (n, t, g))
-        cmd = [vh, 'thresh-conc', '--out', out, '--count', str(count), '--n', str(n), '--t', str(t), '--g', str(g), '--ops', str(ops),
-               '--seed', str(seed)] + (['--chaos'] if chaos else [])
+    bcount = 1500 if tier == 'quick' else 20000
+    for (n, t, g, ops, chaos) in plans + [(5, 2, 0, 0, 'boundary'), (8, 3, 0, 0, 'boundary'), (4, 1, 0, 0, 'boundary')]:
+        boundary = chaos == 'boundary'
+        cnt = bcount if boundary else count
+        out = os.path.join(vlib.subdir('results'), 'conc-%d-%d-%d-%s.ndjson' % (n, t, g, chaos))
+        cmd = [vh, 'thresh-conc', '--out', out, '--count', str(cnt), '--n', str(n), '--t', str(t), '--g', str(g or 2), '--ops', str(ops or 1),
+               '--seed', str(seed + (7 if boundary else 0))] + (['--boundary'] if boundary else (['--chaos'] if chaos else []))
         vlib.run(cmd, check=True)
         hs = [json.loads(l) for l in open(out)]
-        if len(hs) != count:
-            raise vlib.Undecided('recorder returned %d of %d histories' % (len(hs), count))
+        if len(hs) != cnt:
+            raise vlib.Undecided('recorder returned %d of %d histories' % (len(hs), cnt))
         hists[(n, t)] = hists.get((n, t), []) + hs
     total = 0
     orders = set()
